@@ -9,8 +9,9 @@ CONSTANTS
   NTr = 1
   AsIs_D1 = FALSE
   AsIs_D4 = FALSE
+  AsIs_D17 = FALSE
   AsIs_D7 = FALSE
-  Scenarios = {0, 1, 2, 3, 4}
+  Scenarios = {0, 1, 2, 3, 4, 5}
   GenLen = 2
 INVARIANT Linearizable
 INVARIANT LockDiscipline
